@@ -236,6 +236,12 @@ func (t *Taint) scan(fn *ssa.Function, cg *CallGraph) {
 				} else if t.is(a.X) && isSliceOrStructWithSlices(x.Type()) {
 					t.mark(x)
 				}
+			default:
+				// a struct copied out of the snapshot through a pointer (hasher := *conf.Hasher): the copy's
+				// slices still share their backing arrays with the published value
+				if t.is(x.X) && isSliceOrStructWithSlices(x.Type()) {
+					t.mark(x)
+				}
 			}
 		}
 	})
@@ -377,8 +383,20 @@ func mutexOps(fn *ssa.Function) []mutexOp {
 // of the same mutex lies between (an Unlock that is dominated by the Lock and
 // dominates `at`), deferred unlocks run at exit.
 func heldAt(ops []mutexOp, same func(m mutexOp) bool, at ssa.Instruction) (ssa.Instruction, bool) {
+	return heldAtMode(ops, same, at, false)
+}
+
+// heldExclusiveAt: like heldAt, but a read lock (RLock) does not count — what a write to shared state needs.
+func heldExclusiveAt(ops []mutexOp, same func(m mutexOp) bool, at ssa.Instruction) (ssa.Instruction, bool) {
+	return heldAtMode(ops, same, at, true)
+}
+
+func heldAtMode(ops []mutexOp, same func(m mutexOp) bool, at ssa.Instruction, exclusive bool) (ssa.Instruction, bool) {
 	for _, l := range ops {
 		if (l.op != "Lock" && l.op != "RLock") || l.deferd || !same(l) {
+			continue
+		}
+		if exclusive && l.op != "Lock" {
 			continue
 		}
 		if !instrDominates(l.in, at) {
